@@ -192,10 +192,11 @@ def fileRecs (m : Mol) : List C13.Inter :=
   (C02.sortInteractions m).flatMap fun s => (C02.groupRuns (C02.sortInters s.2.2)).flatMap fun blk =>
     blk.2.map (interRec (C02.correspondence m) (retag s.2.1) (pmOf blk.1))
 
-theorem walk_file (F : TabFacts tab idxTab tbl) (m : Mol) (hw : C02.WfFacts tbl m) (hc : C02.CharFacts m)
+theorem walk_fileOrd (F : TabFacts tab idxTab tbl) (m : Mol) (hw : C02.WfFacts tbl m) (hc : C02.CharFacts m)
     (hr : RepoFacts (tab.map (·.path)) m) (hnames : ∀ p ∈ tbl, hdrName p.1 = p.1)
-    (hmol : hdrName "moleculetype" = "moleculetype") (hat : hdrName "atoms" = "atoms") :
-    ∃ cf, ((walkLs (paramsX idxTab tab) ⟨none, {}, 0⟩ (C02.fileLines m)).bind (finishX (paramsX idxTab tab))).map
+    (hmol : hdrName "moleculetype" = "moleculetype") (hat : hdrName "atoms" = "atoms")
+    (names : List String) (hsub : ∀ n ∈ names, n ∈ C02.remainingNames m) :
+    ∃ cf, ((walkLs (paramsX idxTab tab) ⟨none, {}, 0⟩ (C02.fileLinesOrd m names)).bind (finishX (paramsX idxTab tab))).map
         (·.blocks) = some [(some m.moltype, (0, cf))]
       ∧ ViewEq (addAtoms (ctxMol m) (C02.widthsOf m) 0 (C02.sortedNodes m)) cf (fileRecs m) := by
   obtain ⟨e, he, _⟩ := F.mol
@@ -207,7 +208,7 @@ theorem walk_file (F : TabFacts tab idxTab tbl) (m : Mol) (hw : C02.WfFacts tbl 
     show (addAtoms (ctxMol m) (C02.widthsOf m) 0 (C02.sortedNodes m)).base.nodes.map (·.1) = _
     rw [f5, keysUpTo_eq, C02.sortedNodes_length]
     simp [ctxMol]
-  unfold C02.fileLines
+  unfold C02.fileLinesOrd
   rw [List.append_assoc, List.append_assoc]
   rw [walkLs_append_ok _ _ _ _ _ (walk_prelude F m hc hr hmol)]
   obtain ⟨j1, h1⟩ := walk_atomsPart F m hw hc hr hat (ctxMol m) 2 rfl m.moltype rfl
@@ -218,9 +219,9 @@ theorem walk_file (F : TabFacts tab idxTab tbl) (m : Mol) (hw : C02.WfFacts tbl 
     (sectFacts_of m hw hc _ hr hnames) hname2 (Or.inr ⟨_, rfl⟩) ⟨hkeys2, Or.inl rfl⟩
   rw [walkLs_append_ok _ _ _ _ _ h3]
   obtain ⟨c4, bl4, sec4, j4, h4, hv4, hb4, _⟩ := walk_remaining m (freeOk_linesOf _ hr.pre)
-    (freeOk_linesOf _ hr.post) hT m.moltype 0 (C02.remainingNames m) ["moleculetype", x3] bl3 c3 j3
-    hr.remaining (by simp) (hv3.name.trans hname2) hb3
-  unfold C02.remainingPart
+    (freeOk_linesOf _ hr.post) hT m.moltype 0 names ["moleculetype", x3] bl3 c3 j3
+    (fun n hn => hr.remaining n (hsub n hn)) (by simp) (hv3.name.trans hname2) hb3
+  unfold C02.remainingPartOf
   rw [h4]
   have hv : ViewEq c2 c4 (fileRecs m) := by
     have := hv3.trans hv4
@@ -241,6 +242,14 @@ theorem walk_file (F : TabFacts tab idxTab tbl) (m : Mol) (hw : C02.WfFacts tbl 
     simp only [hend, Bool.false_eq_true, if_false]
     have hnm : (paramsX idxTab tab).nameOf c4 = some m.moltype := (hv.name.trans hname2)
     rw [hnm, blocksInv_set _ _ hb4]
+
+theorem walk_file (F : TabFacts tab idxTab tbl) (m : Mol) (hw : C02.WfFacts tbl m) (hc : C02.CharFacts m)
+    (hr : RepoFacts (tab.map (·.path)) m) (hnames : ∀ p ∈ tbl, hdrName p.1 = p.1)
+    (hmol : hdrName "moleculetype" = "moleculetype") (hat : hdrName "atoms" = "atoms") :
+    ∃ cf, ((walkLs (paramsX idxTab tab) ⟨none, {}, 0⟩ (C02.fileLines m)).bind (finishX (paramsX idxTab tab))).map
+        (·.blocks) = some [(some m.moltype, (0, cf))]
+      ∧ ViewEq (addAtoms (ctxMol m) (C02.widthsOf m) 0 (C02.sortedNodes m)) cf (fileRecs m) :=
+  walk_fileOrd F m hw hc hr hnames hmol hat (C02.remainingNames m) (fun _ h => h)
 
 /-! ### the view of the block -/
 
